@@ -2,6 +2,7 @@ package c03
 
 import (
 	"fmt"
+	"slices"
 	"strconv"
 
 	"verifharness/internal/core"
@@ -37,9 +38,12 @@ func keyPos(s *refSet, h uint32) string {
 // tracker replays a case on a refSet and names the events the property is about.
 type tracker struct {
 	s         *refSet
-	wasDense  map[uint32]bool // the bucket's previous incarnation was a bitmap when it vanished
-	convCount map[uint32]int  // conversions seen per bucket key
-	cycles    map[uint32]int  // bulk drains that followed a bulk fill, per bucket
+	wasDense  map[uint32]bool  // the bucket's previous incarnation was a bitmap when it vanished
+	convCount map[uint32]int   // conversions seen per bucket key
+	cycles    map[uint32]int   // bulk drains that followed a bulk fill, per bucket
+	seqSnap   [nSlots]*seqSnap // what the bitmap looked like when the Seq slot was obtained
+	itPos     [nSlots]int      // values delivered by the Iter slot, -1 = empty
+	muts      int              // mutation lines so far
 	lastBulk  map[uint32]string
 	labels    []string
 	event     string // last event since the last mutation line
@@ -142,6 +146,163 @@ func (t *tracker) note(v uint32, add, bulk bool) {
 	s.rm(v)
 }
 
+type seqSnap struct {
+	empty   bool
+	keys    []uint32
+	dense   map[uint32]bool
+	muts    int // mutation count when obtained
+	lastUse int // mutation count at the last use (-1: unused)
+}
+
+func (t *tracker) lab(l string) { t.labels = append(t.labels, l) }
+
+// bucketOfPos: the key of the bucket in which an iterator that has delivered p values stands.
+func (t *tracker) bucketOfPos(p int) (uint32, bool) {
+	if p <= 0 {
+		return 0, false
+	}
+	cum := 0
+	for _, h := range t.s.keys() {
+		cum += t.s.cnt[h]
+		if p <= cum {
+			return h, true
+		}
+	}
+	return 0, false
+}
+
+// handleLabels names what a wave-4 op exercises.
+func (t *tracker) handleLabels(tk []string) {
+	a, b, ok := handleArgs(tk)
+	if !ok {
+		return
+	}
+	s := t.s
+	switch tk[0] {
+	case "seq":
+		sn := &seqSnap{empty: s.size() == 0, keys: s.keys(), dense: map[uint32]bool{}, muts: t.muts, lastUse: -1}
+		for h := range s.conv {
+			sn.dense[h] = true
+		}
+		t.seqSnap[a] = sn
+		if sn.empty {
+			t.lab("seq obtained while the bitmap is empty")
+		}
+	case "seqrange", "seqtwice", "seqnest", "pull2":
+		sn := t.seqSnap[a]
+		if sn == nil {
+			t.lab(tk[0] + " on an empty slot (none)")
+			return
+		}
+		op := tk[0]
+		t.lab(op)
+		if len(s.conv) > 0 {
+			t.lab(op + " (dense present)")
+		}
+		if op == "pull2" && b > 0 {
+			t.lab("pull2 with cursor 1 stopped early")
+		}
+		now := s.keys()
+		switch {
+		case sn.muts == t.muts:
+			t.lab(op + " on a Seq obtained with no mutation since")
+		default:
+			if sn.empty && len(now) > 0 {
+				t.lab(op + " on a Seq obtained while empty, bitmap now non-empty")
+			}
+			conv, vanished, created := false, false, false
+			for h := range s.conv {
+				if !sn.dense[h] {
+					conv = true
+				}
+			}
+			for _, h := range sn.keys {
+				if _, ok := s.cnt[h]; !ok {
+					vanished = true
+				}
+			}
+			for _, h := range now {
+				if !slices.Contains(sn.keys, h) {
+					created = true
+				}
+			}
+			if conv {
+				t.lab(op + " on a Seq obtained before a conversion")
+			}
+			if vanished {
+				t.lab(op + " on a Seq obtained before a bucket vanished")
+			}
+			if created && !sn.empty {
+				t.lab(op + " on a Seq obtained before a bucket was created")
+			}
+			if len(sn.keys) > 0 && (len(now) == 0 || now[0] != sn.keys[0]) {
+				t.lab(op + " on a Seq obtained before the head bucket changed")
+			}
+			if !conv && !vanished && !created {
+				t.lab(op + " on a Seq obtained before membership-only mutations")
+			}
+		}
+		if sn.lastUse >= 0 && sn.lastUse != t.muts {
+			t.lab("same Seq slot used again after further mutations")
+		}
+		sn.lastUse = t.muts
+	case "it":
+		t.itPos[a] = 0
+	case "itnext":
+		p := t.itPos[a]
+		if p < 0 {
+			t.lab("itnext on an empty slot (none)")
+			return
+		}
+		live := 0
+		for _, q := range t.itPos {
+			if q >= 0 {
+				live++
+			}
+		}
+		t.lab(fmt.Sprintf("itnext with %d iterators alive", live))
+		q := min(p+b, s.size())
+		hb, okb := t.bucketOfPos(p)
+		ha, oka := t.bucketOfPos(q)
+		crossed := okb && oka && ha != hb
+		for k, o := range t.itPos {
+			if k == a || o < 0 {
+				continue
+			}
+			ho, oko := t.bucketOfPos(o)
+			switch {
+			case !oko || !oka:
+				t.lab("itnext while another iterator is not started / this one exhausted")
+			case ho == ha && s.conv[ha]:
+				t.lab("itnext with another iterator in the same dense bucket")
+			case ho == ha:
+				t.lab("itnext with another iterator in the same sparse bucket")
+			default:
+				t.lab("itnext with another iterator in a different bucket")
+			}
+			if crossed && oko && ho == hb {
+				t.lab("itnext crosses a bucket boundary while another iterator stands inside the bucket left")
+			}
+		}
+		if p+b > s.size() {
+			t.lab("itnext runs into the end (more=false)")
+		}
+		t.itPos[a] = q
+	case "itpairs":
+		kind := "empty"
+		switch {
+		case len(s.cnt) == 0:
+		case len(s.conv) == 0:
+			kind = "sparse-only"
+		case len(s.conv) == len(s.cnt):
+			kind = "dense-only"
+		default:
+			kind = "mixed"
+		}
+		t.lab("itpairs on a " + kind + " bitmap")
+	}
+}
+
 // sizeLabels names the large shapes an enumeration / dump runs over.
 func (t *tracker) sizeLabels(op string) {
 	s := t.s
@@ -187,12 +348,21 @@ func (t *tracker) sizeLabels(op string) {
 }
 
 func classify(c core.Case, out []string) []string {
-	t := &tracker{s: newRef(), wasDense: map[uint32]bool{}, convCount: map[uint32]int{}, cycles: map[uint32]int{}, lastBulk: map[uint32]string{}}
+	t := &tracker{s: newRef(), wasDense: map[uint32]bool{}, convCount: map[uint32]int{}, cycles: map[uint32]int{}, lastBulk: map[uint32]string{}, itPos: [nSlots]int{-1, -1, -1, -1}}
 	prevLine, repeat := "", 0
 	prev := ""
 	for i, l := range c.Lines[1:] {
 		tk := core.Toks(l)
 		if len(tk) == 0 {
+			continue
+		}
+		if isMutation(tk[0]) {
+			t.itPos = [nSlots]int{-1, -1, -1, -1}
+			t.muts++
+		}
+		if isHandleOp(tk[0]) {
+			t.handleLabels(tk)
+			prev = tk[0]
 			continue
 		}
 		switch tk[0] {
